@@ -7,13 +7,14 @@ import (
 	"bytes"
 	"encoding/json"
 	"fmt"
+	"math/rand"
 	"sort"
 	"strings"
 
 	"github.com/willabides/rjson"
 )
 
-const maxLoggedDepth = 200
+const maxLoggedDepth = 100
 
 func treeDepth(v interface{}) int {
 	// iterative-ish: recursion is fine here, Go stacks grow
@@ -253,6 +254,15 @@ func treeShapes(c *genCtx) [][]byte {
 		add(" " + s + " ")
 		add(s + ",")
 	}
+	// invalid UTF-8 in keys and values in front of / inside every kind of value, at several depths
+	for _, bad := range []string{"\xff", "\xc3", "\xe2\x82", "\xf0\x9f\x98", "\xed\xa0\x80", "\xc0\x80", "a\x80b"} {
+		for _, val := range []string{`"v"`, `1`, `null`, `true`, `[]`, `["a","b"]`, `{}`, `{"x":1}`, `[{"y":[1]}]`, `"` + bad + `"`} {
+			add(`{"k` + bad + `":` + val + `}`)
+			add(`[{"outer":{"list` + bad + `":` + val + `}}]`)
+			add(`{"a":[1,{"` + bad + `":` + val + `,"z":"` + bad + `"}]}`)
+		}
+		add(`["` + bad + `",["` + bad + `"],{"k":"` + bad + `"}]`)
+	}
 	// big-then-small siblings (size prediction and pooling), wide and deep siblings
 	for _, n := range []int{1, 2, 8, 50} {
 		big := make([]string, n)
@@ -286,40 +296,26 @@ func genTrees(c *genCtx) error {
 		if err != nil {
 			return err
 		}
-		members := map[int][]int{}
-		for b := 0; b < 256; b++ {
-			members[ss.Classes[b]] = append(members[ss.Classes[b]], b)
+		mem := classMembers(ss)
+		conts := [][]byte{[]byte("5"), []byte("0"), []byte(`"`)}
+		if c.thorough() {
+			conts = tokenCompletions(ss)
 		}
-		for si := range ss.States {
-			s := &ss.States[si]
-			if s.Out != "run" {
-				continue
+		parallelBases(sweepBases(ss, true, false, c.rng), c.st, c.rng, func(base sweepBase, rng *rand.Rand, st *genStats, w *sweepWorker) {
+			if base.st.Out != "run" {
+				return
 			}
-			pre := toBytes(s.Inp)
-			succ := map[int][]byte{}
-			for _, su := range s.Succ {
-				if su.Out == "run" {
-					succ[su.B] = toBytes(su.Comp)
+			o := sweepOpts{allBytes: c.thorough() && !base.edge, stop: false, rejectConts: conts}
+			if !c.thorough() {
+				o.rejectConts = conts[:1]
+				if base.edge && rng.Intn(8) != 0 {
+					return // the quick tier takes an eighth of the transitions (which ones depends on the seed)
 				}
 			}
-			for cl, ms := range members {
-				bs := []int{ms[0]}
-				if c.thorough() {
-					bs = ms
-				} else if len(ms) > 1 {
-					bs = append(bs, ms[1+c.rng.Intn(len(ms)-1)])
-				}
-				for _, b := range bs {
-					in := append(append([]byte{}, pre...), byte(b))
-					if comp, ok := succ[cl]; ok {
-						emit(append(append([]byte{}, in...), comp...))
-					} else if c.thorough() || b == ms[0] {
-						emit(in)
-						emit(append(append([]byte{}, in...), toBytes(s.Comp)...))
-					}
-				}
-			}
-		}
+			forSweepInputs(ss, mem, base, o, rng, func(in []byte, viable bool) {
+				runTreeWith(&w.rd, c.sw, &w.j, in, nil, st)
+			})
+		})
 	}
 	if c.want("depth") {
 		depths := []int{9999, 10000, 10001}
